@@ -142,3 +142,89 @@ Proof. exact Proofs.GaussB.ex_identity_accepted. Qed.
 Example c08_float_run :
   @ge_lists float FNum [[1; 2]; [4; 4]]%float [5; 6]%float 0x1p-20%float = Ok [-2; 3.5]%float.
 Proof. vm_compute. reflexivity. Qed.
+
+(* ---- FLOAT instance: backward error of the triangular substitution routines (Proofs/SubstFloat.v, Flocq) ----
+   [B2R (Prim2B x)] is the real value of the primitive float x.  Per-row hypotheses, stated on the returned vector x:
+   okmul u v := is_finite (Prim2B (u*v)) = true /\ (B2R u * B2R v = 0 \/ 2^-1022 <= |B2R u * B2R v|)   (Proofs/PolyFloat.v)
+   okdiv w d := is_finite (Prim2B (w/d)) = true /\ B2R d <> 0 /\ (B2R w / B2R d = 0 \/ 2^-1022 <= |B2R w / B2R d|)
+   fwd_row_ok a b x i  : b_i finite; okmul (a i j) (x j) for j < i; every partial sum of the row finite;
+                         b_i - sum finite; okdiv (b_i - sum) (a i i).     back_row_ok a n b x i : the mirror image
+                         (j > i, sums started at i+1), and just okdiv (b i) (a i i) for the last row i = n-1. *)
+From Flocq Require Import Core BinarySingleNaN PrimFloat.
+From SV Require Import Proofs.PolyFloat Proofs.SubstFloat.
+
+(* forward substitution in binary64, componentwise backward error (residual form): with the per-row hypotheses
+   [fwd_row_ok] on the returned vector, every component is finite and, for every row i,
+   |sum_{j<=i} a_ij xh_j - b_i| <= ((1+eps)^(n+1) - 1) sum_{j<=i} |a_ij| |xh_j|   (eps = 2^-53; the upper triangle is never read) *)
+Theorem c08_forward_substitution_float_error : forall (n : nat) (a : mat PrimFloat.float) (b s0 : vec PrimFloat.float),
+  (forall i, (i < n)%nat -> fwd_row_ok a b (forward_substitution a n b s0) i) ->
+  forall i, (i < n)%nat ->
+    is_finite (Prim2B (forward_substitution a n b s0 i)) = true /\
+    Rabs (Rsum_n n (fun j => (if (i <? j)%nat then 0 else B2R (Prim2B (a i j)))
+                             * B2R (Prim2B (forward_substitution a n b s0 j)))
+          - B2R (Prim2B (b i)))
+    <= ((1 + bpow radix2 (-53)) ^ (n + 1) - 1)
+       * Rsum_n n (fun j => Rabs (if (i <? j)%nat then 0 else B2R (Prim2B (a i j)))
+                            * Rabs (B2R (Prim2B (forward_substitution a n b s0 j)))).
+Proof. exact Proofs.SubstFloat.forward_substitution_float_error. Qed.
+Check c08_forward_substitution_float_error : forall (n : nat) (a : mat PrimFloat.float) (b s0 : vec PrimFloat.float),
+  (forall i, (i < n)%nat -> fwd_row_ok a b (forward_substitution a n b s0) i) ->
+  forall i, (i < n)%nat ->
+    is_finite (Prim2B (forward_substitution a n b s0 i)) = true /\
+    Rabs (Rsum_n n (fun j => (if (i <? j)%nat then 0 else B2R (Prim2B (a i j)))
+                             * B2R (Prim2B (forward_substitution a n b s0 j)))
+          - B2R (Prim2B (b i)))
+    <= ((1 + bpow radix2 (-53)) ^ (n + 1) - 1)
+       * Rsum_n n (fun j => Rabs (if (i <? j)%nat then 0 else B2R (Prim2B (a i j)))
+                            * Rabs (B2R (Prim2B (forward_substitution a n b s0 j)))).
+Print Assumptions c08_forward_substitution_float_error.
+
+(* back substitution: the mirror image, on the upper triangle ([back_row_ok]; the last row is a bare division) *)
+Theorem c08_back_substitution_float_error : forall (n : nat) (a : mat PrimFloat.float) (b s0 : vec PrimFloat.float),
+  (0 < n)%nat ->
+  exists x, back_substitution a n b s0 = Ok x /\
+  ((forall i, (i < n)%nat -> back_row_ok a n b x i) ->
+   forall i, (i < n)%nat ->
+    is_finite (Prim2B (x i)) = true /\
+    Rabs (Rsum_n n (fun j => (if (j <? i)%nat then 0 else B2R (Prim2B (a i j))) * B2R (Prim2B (x j)))
+          - B2R (Prim2B (b i)))
+    <= ((1 + bpow radix2 (-53)) ^ (n + 1) - 1)
+       * Rsum_n n (fun j => Rabs (if (j <? i)%nat then 0 else B2R (Prim2B (a i j))) * Rabs (B2R (Prim2B (x j))))).
+Proof. exact Proofs.SubstFloat.back_substitution_float_error. Qed.
+Check c08_back_substitution_float_error : forall (n : nat) (a : mat PrimFloat.float) (b s0 : vec PrimFloat.float),
+  (0 < n)%nat ->
+  exists x, back_substitution a n b s0 = Ok x /\
+  ((forall i, (i < n)%nat -> back_row_ok a n b x i) ->
+   forall i, (i < n)%nat ->
+    is_finite (Prim2B (x i)) = true /\
+    Rabs (Rsum_n n (fun j => (if (j <? i)%nat then 0 else B2R (Prim2B (a i j))) * B2R (Prim2B (x j)))
+          - B2R (Prim2B (b i)))
+    <= ((1 + bpow radix2 (-53)) ^ (n + 1) - 1)
+       * Rsum_n n (fun j => Rabs (if (j <? i)%nat then 0 else B2R (Prim2B (a i j))) * Rabs (B2R (Prim2B (x j))))).
+Print Assumptions c08_back_substitution_float_error.
+
+(* [okdiv] can be discharged by computation (as [okmul] by c01_okmul_by_leb): quotient and divisor finite and
+   at least 2^-1021 in magnitude (two_m1021 = 0x1p-1021) *)
+Theorem c08_okdiv_by_leb : forall w d : PrimFloat.float,
+  PrimFloat.is_finite (PrimFloat.div w d) = true ->
+  PrimFloat.leb two_m1021 (PrimFloat.abs (PrimFloat.div w d)) = true ->
+  PrimFloat.is_finite d = true ->
+  PrimFloat.leb two_m1021 (PrimFloat.abs d) = true ->
+  okdiv w d.
+Proof. exact Proofs.SubstFloat.okdiv_by_leb. Qed.
+Check c08_okdiv_by_leb : forall w d : PrimFloat.float,
+  PrimFloat.is_finite (PrimFloat.div w d) = true ->
+  PrimFloat.leb two_m1021 (PrimFloat.abs (PrimFloat.div w d)) = true ->
+  PrimFloat.is_finite d = true ->
+  PrimFloat.leb two_m1021 (PrimFloat.abs d) = true ->
+  okdiv w d.
+Print Assumptions c08_okdiv_by_leb.
+
+(* non-vacuity: the 3x3 systems of Proofs/SubstFloat.v  L = [[2,0,0],[0.5,-4,0],[0.1,3,1.5]] (ex_l), U = L^T (ex_u),
+   b = [1, 2.5, -0.3] (ex_rhs), in hex floats, satisfy the hypotheses; checked by computation *)
+Example c08_float_nonvacuous_forward :
+  forall i, (i < 3)%nat -> fwd_row_ok ex_l ex_rhs (forward_substitution ex_l 3 ex_rhs ex_s0) i.
+Proof. exact Proofs.SubstFloat.ex_forward_hyps. Qed.
+Example c08_float_nonvacuous_back : exists x, back_substitution ex_u 3 ex_rhs ex_s0 = Ok x /\
+  forall i, (i < 3)%nat -> back_row_ok ex_u 3 ex_rhs x i.
+Proof. exact Proofs.SubstFloat.ex_back_hyps. Qed.
